@@ -78,8 +78,59 @@ let buf_case a =
   let s = "OK " ^ String.concat "|" (List.map (fun st -> "r=ok" ^ pr_s st ^ ";sh=0") sstates) ^ "|leak=0" in
   (m, s)
 
+(* ---- string_stream histories ---- *)
+let strlen_cut (l : n list) = let rec go = function [] -> [] | x :: t -> if x = N0 then [] else x :: go t in go l
+
+let parse_sop (s : string) : sop =
+  let nat s = nat_of_int (int_of_string s) in
+  match split_on ',' s with
+  | ["new"; o] -> SNew (nat o)
+  | ["app"; o; d] | ["app.st"; o; d] | ["app.std"; o; d] | ["app.view"; o; d] | ["app.u8"; o; d] -> SAppend (nat o, bytes_of_hex d)
+  | ["app.cstr"; o; d] | ["app.auto"; o; d] -> SAppend (nat o, strlen_cut (bytes_of_hex d))
+  | ["appc"; o; c; n] -> SAppendChar (nat o, n_of_string c, nat n)
+  | ["shlc"; o; c] -> SAppendChar (nat o, n_of_string c, nat "1")
+  | ["trunc"; o; n] -> STruncate (nat o, nat n)
+  | ["erase"; o; n] -> SErase (nat o, nat n)
+  | ["move"; o; s] -> SMove (nat o, nat s)
+  | ["masg"; o; s] -> SMasg (nat o, nat s)
+  | ["shl"; o; ty; v] ->
+      let bits = match ty with "i32" | "u32" -> 32 | _ -> 64 in
+      let z = BZ.of_string v in
+      SShl (nat o, nat_of_int bits, BZ.sign z < 0, n_of_bz (BZ.abs z))
+  | ["del"; o] -> SDel (nat o)
+  | _ -> failwith ("drv_mem: bad stream op " ^ s)
+
+let ss_case a =
+  let pool = int_of_string (List.nth a 0) in
+  let ops = List.map parse_sop (split_on ';' (List.nth a 1)) in
+  let stk = nat_of_int (int_of_n stack_string_size) and pnat = nat_of_int pool in
+  let (steps, stf) = run_shistory stk ops pnat sstate0 in
+  let pr_so i = function
+    | None -> Printf.sprintf ";%d=-" i
+    | Some o -> Printf.sprintf ";%d=%s:%d:%s" i (hex_of_bytes o.so_bytes) (int_of_nat o.so_size) (if o.so_own then "L" else "H") in
+  let died = List.find_opt (fun s -> match s.ss_result with Abort _ | Fault _ -> true | _ -> false) steps in
+  let m =
+    match died with
+    | Some s -> res_name s.ss_result
+    | None ->
+        let body = String.concat "|" (List.map (fun s ->
+          "r=" ^ res_name s.ss_result ^ String.concat "" (List.mapi pr_so s.ss_objs)
+          ^ ";sh=" ^ (if s.ss_shares then "1" else "0")) steps) in
+        (match s_leaked_after_scope stk pnat stf with
+         | Ok n -> "OK " ^ body ^ "|leak=" ^ string_of_nat n
+         | o -> res_name o) in
+  (* spec: bytes only; where the bytes live (L/H) is not part of the property: '*' *)
+  let sstates = spec_shistory ops bstore0 in
+  let pr_s st = String.concat "" (List.init pool (fun i ->
+      match st (nat_of_int i) with
+      | None -> Printf.sprintf ";%d=-" i
+      | Some v -> Printf.sprintf ";%d=%s:%d:*" i (hex_of_bytes v) (List.length v))) in
+  let s = "OK " ^ String.concat "|" (List.map (fun st -> "r=ok" ^ pr_s st ^ ";sh=0") sstates) ^ "|leak=0" in
+  (m, s)
+
 let dispatch op a =
   match op with
+  | "ss" -> ss_case a
   | "buf" -> buf_case a
   | _ -> failwith ("drv_mem: unknown op " ^ op)
 
